@@ -328,18 +328,23 @@ type retryCase struct {
 	First  []byte
 	HRR    []byte
 	Second []byte
-	CCS    bool // the client sends its compatibility change_cipher_spec before the second hello (RFC 8446 D.4)
+	CCS    bool   // the client sends its compatibility change_cipher_spec before the second hello (RFC 8446 D.4)
+	SNI    string // server name and ALPN list of the first inner hello
+	ALPN   []string
 }
 
 func retryCases(r *rand.Rand) []retryCase {
 	key := gen.NewKey(r, uint8(r.IntN(256)), "public.example", gen.AllSuites)
 	suite := gen.AllSuites[r.IntN(3)]
-	o := gen.PlanOpts{NOuterOpaque: 2, NInnerOpaque: 1, MaxExtLen: 20, Padding: 4, SIDLen: 32, RefMask: uint64(r.IntN(4)), MarkerPos: r.IntN(3), InnerName: "inner.example", ALPN: []string{"h2", "http/1.1"}, PublicName: "public.example"}
+	// the inner ALPN list in the client's order of preference, which need not be any sorted order
+	alpn := [][]string{{"h2", "http/1.1"}, {"http/1.1", "h2"}, {"spdy/3", "h2", "acme-tls/1"}, {"h3", "h2", "http/1.1"}}[r.IntN(4)]
+	o := gen.PlanOpts{NOuterOpaque: 2, NInnerOpaque: 1, MaxExtLen: 20, Padding: 4, SIDLen: 32, RefMask: uint64(r.IntN(4)), MarkerPos: r.IntN(3), InnerName: "inner.example", ALPN: alpn, PublicName: "public.example"}
 	plan := gen.Plan(r, o)
 	hrr := gen.ServerHelloRecord(r, true, plan.OuterBase.SID)
 	var out []retryCase
-	classOf := map[string]string{"G": "", "P": "illegal", "V": "illegal", "N": "missing", "I": "illegal", "S": "illegal", "E": "illegal", "B": "decrypt", "M": "illegal", "A": "illegal"}
-	for _, kind := range []string{"G", "P", "V", "N", "I", "S", "E", "B", "M", "A"} {
+	classOf := map[string]string{"G": "", "P": "illegal", "V": "illegal", "N": "missing", "I": "illegal", "S": "illegal", "E": "illegal", "B": "decrypt", "M": "illegal", "A": "illegal", "R": "illegal", "C": "illegal"}
+	// R: the same ALPN protocols in another order; C: the inner server name in another letter case
+	for _, kind := range []string{"G", "P", "V", "N", "I", "S", "E", "B", "M", "A", "R", "C"} {
 		s1 := gen.Seal(plan.OuterBase, 1, key, suite, plan.Enc.Body(), nil, 0x0301)
 		e2 := *plan.Enc
 		e2.Random = gen.RandBytes(r, 32)
@@ -357,6 +362,20 @@ func retryCases(r *rand.Rand) []retryCase {
 			for i, e := range e2.Exts {
 				if e.Type == 16 {
 					e2.Exts[i] = gen.ALPN("h2")
+				}
+			}
+		case "R":
+			for i, e := range e2.Exts {
+				if e.Type == 16 {
+					rev := slices.Clone(alpn)
+					slices.Reverse(rev)
+					e2.Exts[i] = gen.ALPN(rev...)
+				}
+			}
+		case "C":
+			for i, e := range e2.Exts {
+				if e.Type == 0 {
+					e2.Exts[i] = gen.SNI("INNER.example")
 				}
 			}
 		case "P":
@@ -401,7 +420,7 @@ func retryCases(r *rand.Rand) []retryCase {
 			// another deployment's key under the same one-byte id (other public name), listed first
 			keys = echKeys(gen.NewKey(r, key.ID, "elsewhere-public.example", gen.AllSuites), key)
 		}
-		out = append(out, retryCase{Kind: kind, Class: classOf[kind], Keys: keys, First: s1.Rec, HRR: hrr, Second: second, CCS: r.IntN(2) == 0})
+		out = append(out, retryCase{Kind: kind, Class: classOf[kind], Keys: keys, First: s1.Rec, HRR: hrr, Second: second, CCS: r.IntN(2) == 0, SNI: "inner.example", ALPN: alpn})
 	}
 	return out
 }
@@ -416,6 +435,7 @@ func runRetryCase(rc retryCase, readSize int) (s *connh.Sess, first connh.NewRes
 		return
 	}
 	s.Read(70000)
+	s.Names()
 	s.Write(rc.HRR)
 	if rc.CCS {
 		ccs := gen.Record(20, 0x0303, []byte{1})
@@ -425,5 +445,6 @@ func runRetryCase(rc retryCase, readSize int) (s *connh.Sess, first connh.NewRes
 		s.Feed([][]byte{rc.Second}, "eof")
 	}
 	rd = s.Read(readSize)
+	s.Names() // what the Conn reports does not drift with the retry
 	return
 }
